@@ -5,6 +5,7 @@ import (
 	"errors"
 	"fmt"
 	"sort"
+	"strings"
 	"sync"
 	"time"
 
@@ -186,6 +187,34 @@ func explore19(r *kit.Run, n, t int) (int, int, string) {
 		return state_machines.FromDump(d)
 	}
 
+	// afterRefusal: a refused event must leave the round held in memory as it was - it can still
+	// be saved, the saved form is the one it had before, and it answers the next event as a
+	// round restored from that form does (the follow-up is the alphabet's next element, so that
+	// every event is a follow-up of every other somewhere in the exploration)
+	afterRefusal := func(b *state_machines.FSMInstance, cur *st19, state fsm.State, idx int, tr interface{}) {
+		in := alphabet[idx]
+		d, err := b.Dump()
+		if err != nil {
+			r.Violation("C19/refused-event-damages-live-round/"+string(in.Event), fmt.Sprintf("in %s, after the refused event %s the round held in memory cannot be dumped: %v", state, in.Label, err), tr)
+			return
+		}
+		if string(d) != string(cur.Dump) {
+			var dd state_machines.FSMDump
+			_ = json.Unmarshal(d, &dd)
+			r.Violation("C19/refused-event-damages-live-round/"+string(in.Event), fmt.Sprintf("in %s, after the refused event %s the round held in memory dumps differently than before the event (state in the dump: %q)", state, in.Label, dd.State), tr)
+			return
+		}
+		in2 := alphabet[(idx+1)%len(alphabet)]
+		a2, err := restore(cur.Dump)
+		if err != nil {
+			return
+		}
+		o1, o2 := run(a2, in2), run(b, in2)
+		if o1.errd != o2.errd || o1.state != o2.state || o1.data != o2.data || (!o1.errd && o1.dump != o2.dump) {
+			r.Violation("C19/restored-differs-from-live-after-refusal/"+string(in2.Event), fmt.Sprintf("in %s, after the refused event %s, the event %s: restored round -> err=%v(%s) state=%s ; live round -> err=%v(%s) state=%s", state, in.Label, in2.Label, o1.errd, o1.emsg, o1.state, o2.errd, o2.emsg, o2.state), tr)
+		}
+	}
+
 	next := func(w int, s *xsearch.St) ([]*xsearch.St, error) {
 		cur := s.Data.(*st19)
 		var dd state_machines.FSMDump
@@ -228,6 +257,9 @@ func explore19(r *kit.Run, n, t int) (int, int, string) {
 				if o1.errd != o2.errd || o1.state != o2.state || o1.data != o2.data || (!o1.errd && o1.dump != o2.dump) {
 					r.Violation("C19/nondeterministic-transition", fmt.Sprintf("in %s the event %s gave two different results from the same dump", dd.State, in.Label), trace(in.Label))
 				}
+				if o2.errd && !strings.HasPrefix(o2.emsg, "PANIC") {
+					afterRefusal(b, cur, dd.State, idx, trace(in.Label))
+				}
 				if o1.errd || o1.dump == "" {
 					out = append(out, &xsearch.St{Key: s.Key, Data: cur, Via: in.Label})
 				} else {
@@ -262,6 +294,9 @@ func explore19(r *kit.Run, n, t int) (int, int, string) {
 				r.Violation("C19/restored-differs-from-live/"+string(dd.State)+"/"+string(in.Event),
 					fmt.Sprintf("in %s the event %s: restored round -> err=%v(%s) state=%s ; live round -> err=%v(%s) state=%s ; data equal=%v dump equal=%v",
 						dd.State, in.Label, o1.errd, o1.emsg, o1.state, o2.errd, o2.emsg, o2.state, o1.data == o2.data, o1.dump == o2.dump), trace(in.Label))
+			}
+			if o2.errd && !strings.HasPrefix(o2.emsg, "PANIC") {
+				afterRefusal(b, cur, dd.State, idx, trace(in.Label))
 			}
 			if o1.errd || o1.dump == "" {
 				out = append(out, &xsearch.St{Key: s.Key, Data: cur, Via: in.Label})
